@@ -81,8 +81,10 @@ package types
 //@ func (AccountAccessor).GetAssetCode   trusted
 //@   modifies nothing
 //@   ensures result1 == nil ==> result0 != nil
+// the freeze flag of an asset code as ghost state of the issuer account: frozen iff the profile value under "freeze" reads "true"
 //@ func (AccountAccessor).GetAssetCodeState   trusted
 //@   modifies nothing
+//@   ensures key == AssetFreeze ==> ((result1 == nil && result0 == "true") <==> gh("frozen", pairkey(recv, code)) != 0)
 //@ func (AccountAccessor).GetAssetCodeTotalSupply   trusted
 //@   modifies nothing
 //@   ensures result1 == nil ==> result0 != nil && val(result0) == supplyOf(recv, code)
